@@ -140,6 +140,11 @@ impl OodFrame {
         }
 
         // if there is a Lagrange kernel, we treat its associated entries separately above
+        if lagrange_kernel_frame.is_some() && aux_trace_width == 0 {
+            return Err(DeserializationError::InvalidValue(format!(
+                "a Lagrange kernel frame of {lagrange_kernel_frame_size} rows was provided for a trace without auxiliary columns"
+            )));
+        }
         let aux_trace_width = aux_trace_width - (lagrange_kernel_frame.is_some() as usize);
 
         // parse main and auxiliary trace evaluation frames. This does the reverse operation done in
@@ -147,6 +152,12 @@ impl OodFrame {
         let (current_row, next_row) = {
             let mut reader = SliceReader::new(&self.trace_states);
             let frame_size = reader.read_u8()? as usize;
+            // the frame always consists of the current and the next row
+            if frame_size != 2 {
+                return Err(DeserializationError::InvalidValue(format!(
+                    "out-of-domain trace frame must consist of 2 rows, but {frame_size} were specified"
+                )));
+            }
             let trace = reader.read_many((main_trace_width + aux_trace_width) * frame_size)?;
 
             if reader.has_more_bytes() {
